@@ -136,6 +136,10 @@ def _status_synonym(e: ast.AST) -> ast.AST:
     return e
 
 
+# library-specific equivalences of tests, registered by the rule modules (each maps a test to an equivalent test over the atoms the rules track, or returns it unchanged)
+TEST_REWRITERS: list = []
+
+
 def _is_count(e: ast.AST) -> bool:
     """A non-negative integer by construction: `q.qsize()` or `len(x)`."""
     return isinstance(e, ast.Call) and not e.keywords and (
@@ -144,6 +148,8 @@ def _is_count(e: ast.AST) -> bool:
 
 def _uncount(e: ast.AST) -> ast.AST:
     """A count compared with zero has the truth value of the count (or of its negation): `n == 0` is `not n`; `n != 0`, `n > 0`, `n >= 1`, `0 < n` are `n`."""
+    for rw in TEST_REWRITERS:
+        e = rw(e)
     e = _status_synonym(e)
     if not (isinstance(e, ast.Compare) and len(e.ops) == 1):
         return e
@@ -246,7 +252,10 @@ class Facts:
         if not written:
             return
         for a in nonlocal_atoms:
-            if '*' in written or '(' in a or any(re.search(rf'\.{re.escape(w)}(?![\w])', a) for w in written):
+            # an observer of one library object (`<chain>.is_set()`, `.qsize()`, `.done()`): its answer changes only when that object is written (set / clear / put / cancel ...
+            # are recorded as writes of the chain's last attribute); any other call atom may read anything
+            observer = re.fullmatch(r'(not )?[\w.]+\.(is_set|qsize|done|cancelled|empty|full)\(\)', a) is not None
+            if '*' in written or ('(' in a and not observer) or any(re.search(rf'\.{re.escape(w)}(?![\w])', a) for w in written):
                 del env[a]
 
     # ---------------------------------------------------------------- evaluation
@@ -277,6 +286,12 @@ class Facts:
         if isinstance(e, ast.UnaryOp) and isinstance(e.op, ast.Not):
             r = self.eval(e.operand, env)
             return None if r is None else (not r)
+        if isinstance(e, ast.IfExp):
+            t = self.eval(e.test, env)
+            if t is not None:
+                return self.eval(e.body if t else e.orelse, env)
+            a, b = self.eval(e.body, env), self.eval(e.orelse, env)
+            return a if a == b else None
         if isinstance(e, ast.BoolOp):
             vals = [self.eval(v, env) for v in e.values]
             if isinstance(e.op, ast.And):
@@ -328,6 +343,19 @@ class Facts:
                 env[whole] = 'T' if truth else 'F'
         if isinstance(e, ast.UnaryOp) and isinstance(e.op, ast.Not):
             return self.assume(e.operand, not truth, env)
+        if isinstance(e, ast.IfExp):
+            t = self.eval(e.test, env)
+            if t is not None:
+                return self.assume(e.body if t else e.orelse, truth, env)
+            # an arm whose truth is fixed the other way cannot be the one taken
+            a, b = self.eval(e.body, env), self.eval(e.orelse, env)
+            if b is not None and b != truth:
+                env2 = self.assume(e.test, True, env)
+                return None if env2 is None else self.assume(e.body, truth, env2)
+            if a is not None and a != truth:
+                env2 = self.assume(e.test, False, env)
+                return None if env2 is None else self.assume(e.orelse, truth, env2)
+            return env
         if isinstance(e, ast.BoolOp):
             conj = isinstance(e.op, ast.And)
             if conj == truth:  # (and, True) / (or, False): every operand is fixed
